@@ -42,7 +42,7 @@ CHECKS = {
     "C17": {"pkg": "benchstat"},
     "C18": {"pkg": "benchseries"},
     "C19": {"pkg": "storage/app", "pkgs": ["storage/app", "analysis/app"]},
-    "C20": {"pkg": "storage/app", "pkgs": ["storage/app", "storage/db"]},
+    "C20": {"pkg": "storage/app", "pkgs": ["storage/app", "storage/db"], "race_pkg": "storage/db"},
 }
 
 
@@ -157,6 +157,29 @@ def run_multi(cid, tier, replay, t0):
         rcs.append(rc)
     if replay:
         return 2
+    rp = CHECKS[cid].get("race_pkg")
+    if rp:
+        # separate free-running pass of the same bodies under the race detector
+        binp, bt = build(cid, race=True, suffix="-race", pkg=rp)
+        env = goenv()
+        env.update({"VERIF_TIER": tier, "VERIF_ROOT": VERIF, "VERIF_KNOWN": os.path.join(VERIF, "known_findings.json"),
+                    "VERIF_EVIDENCE": os.path.join(scratch, "part-race.json"), "VERIF_REPO": REPO, "VERIF_RACE": "1",
+                    "GORACE": "halt_on_error=0"})
+        env.setdefault("VERIF_SEED", "0")
+        import io, contextlib
+        buf = io.StringIO()
+        with contextlib.redirect_stdout(buf):
+            rc = run_binary(cid, binp, env, t0, bt)
+        out = buf.getvalue()
+        sys.stdout.write(out)
+        if "WARNING: DATA RACE" in out:
+            os.makedirs(os.path.join(VERIF, "replays", cid), exist_ok=True)
+            path = os.path.join(VERIF, "replays", cid, "race-report.txt")
+            open(path, "w").write(out)
+            print(f"VIOLATION property={cid} replay={path}")
+            print("  the free-running -race pass reported a data race")
+            rc = 1
+        rcs.append(rc)
     merge_parts(cid, tier, scratch, time.time() - t0)
     if any(rc == 1 for rc in rcs):
         return 1
@@ -202,9 +225,12 @@ def merge_parts(cid, tier, scratch, wall, refusal=None, exhaustive_family=None):
                 if k in fam:
                     m[k] = max(m.get(k, 0), fam[k])
             m["wall_s"] = max(m.get("wall_s", 0), fam.get("wall_s", 0))
-        cov["samples"] = (cov["samples"] + c.get("samples", []))[:8]
+        cov["samples"] = (cov["samples"] + (c.get("samples") or []))[:8]
         for k in c.get("known_findings_hit", []):
             known.add(k)
+    if not exhaustive_family and cov["families"]:
+        # the free-running -race passes are samples by design; exhaustiveness is a statement about the enumerating families
+        cov["exhaustive"] = all(f.get("exhaustive", True) for n, f in cov["families"].items() if not n.startswith("free-running"))
     if exhaustive_family:
         fam = cov["families"].get(exhaustive_family)
         cov["exhaustive"] = bool(fam and fam.get("exhaustive")) and refusal is None
